@@ -1,3 +1,253 @@
 import B6.Driver.Common
-/-! Driver for C10 — stub (the check for this property is not built yet). -/
-def main : IO Unit := B6.Driver.run { σ := Unit, init := (), step := fun s _ _ => (s, .bad) }
+import B6.Model.Bits
+/-!
+Driver for C10 (stateless).  Numbers are unsigned decimal 64-bit words (Go ints as two's-complement bits),
+strings are hex of their bytes.  For every op the model answer is recomputed with `B6.Model.Bits` /
+`B6.Model.Varint`, and — when the inputs are inside the domain stated by the corresponding theorem of
+`B6/Props/C10.lean` — the round-trip predicate is evaluated on the implementation's own answer.
+
+  `zz64 x`            => `enc dec`                 ZigzagEncode(int64 x), ZigzagDecode(enc)        pred: dec = x
+  `zd64 v`            => `dec enc`                 ZigzagDecode(v), ZigzagEncode(dec)              pred: enc = v
+  `zz32 x`            => `enc dec`                 renderer zigzag (x an int32 as 64-bit int)      pred: dec = x
+  `zd32 v`            => `dec enc`                                                                 pred: enc = v
+  `tns t ns`          => `c t' ns'`                Combine, Split        pred (t<8, ns<2^13): (t',ns') = (t,ns)
+  `tnsd c`            => `t ns`
+  `vt t v`            => `e v' t'` | `panic`       pred (t<4, v<2^62): no panic, (v',t') = (v,t)
+  `geo e l`           => `v l' e'` | `panic`       pred (e<3, l<2^62): no panic, (l',e') = (l,e)
+  `geod v`            => `l e`
+  `hdr b t id tag len`=> `bytes bucket id' tag' len' n`   pred (t ≤ b ≤ 63, tag < 2^t, len < 2^63): (id',tag',len') = (id,tag,len)
+  `lay b t`           => `b' t'`                   NewUint64MapBuilder(b,t).Layout  pred: layoutOK b' t' ∧ t' = t
+  `blay count type`   => `b' t'`                   layout of a feature block        pred: layoutOK b' t' ∧ t' = tagBits[type]
+  `tile x y z`        => `id x' y' z'`             pred (z ≤ 29, x,y < 2^z): (x',y',z') = (x,y,z)
+  `tiled id`          => `x y z`
+  `ll lat lng`        => `id lat' lng'`            (uint32 bits of the E7 ints)     pred: (lat',lng') = (lat,lng)
+  `pc hex`            => `id hex'` | `id none` | `invalid`   pred (normal form is 5–7 of [0-9A-Z]): valid, hex' = normal form
+  `pcd v`             => `hex` | `none`
+  `ons hex year`      => `v hex' year'` | `invalid`          pred (ASCII letter + 8 digits, 1900 ≤ year ≤ 2155): round trip
+  `onsd v`            => `hex year`
+-/
+open B6.Driver B6.Model.Bits B6.Model.Varint
+namespace B6.Driver.C10
+
+def u64? (s : String) : Option (BitVec 64) :=
+  match s.toNat? with
+  | some n => if n < 2 ^ 64 then some (BitVec.ofNat 64 n) else none
+  | none => none
+
+def nat? (s : String) : Option Nat := s.toNat?
+
+def int? (s : String) : Option Int :=
+  if s.startsWith "-" then (sdrop s 1).toNat?.map fun n => -(n : Int) else s.toNat?.map fun n => (n : Int)
+
+def r64 (v : BitVec 64) : String := toString v.toNat
+def r32 (v : BitVec 32) : String := toString v.toNat
+def r16 (v : BitVec 16) : String := toString v.toNat
+def r8 (v : BitVec 8) : String := toString v.toNat
+
+/-- ASCII bytes → chars; `none` if a byte is ≥ 0x80 (the harness never sends one). -/
+def asciiChars (bs : List UInt8) : Option (List Char) :=
+  bs.mapM fun b => if b.toNat < 128 then some (Char.ofNat b.toNat) else none
+
+def hexOfChars (cs : List Char) : String := renderHex (String.ofList cs).toUTF8.toList
+
+/-- verdict from: the model answer, and the predicate (`none` = inputs outside the theorem's domain). -/
+def judge (impl model : String) (pred : Option Bool) (clause : String) : Verdict :=
+  match pred with
+  | some false => .propfail clause
+  | _ => if impl == model then .ok else .diff model
+
+def tagBitsOf (t : Nat) : Option Nat :=
+  match t with | 0 => some 2 | 1 => some 0 | 2 => some 0 | 3 => some 0 | _ => none
+
+def step (_ : Unit) (op impl : String) : Unit × Verdict :=
+  let ans := words impl
+  let v : Verdict :=
+    match words op with
+    | ["zz64", xs] =>
+      match u64? xs with
+      | none => .bad
+      | some x =>
+        let e := zigzagEncode x
+        let m := s!"{r64 e} {r64 (zigzagDecode e)}"
+        let pred := match ans with | [_, d] => some (d == r64 x) | _ => some false
+        judge impl m pred "zigzag64"
+    | ["zd64", vs] =>
+      match u64? vs with
+      | none => .bad
+      | some v =>
+        let d := zigzagDecode v
+        let m := s!"{r64 d} {r64 (zigzagEncode d)}"
+        let pred := match ans with | [_, e] => some (e == r64 v) | _ => some false
+        judge impl m pred "zigzag64-onto"
+    | ["zz32", xs] =>
+      match u64? xs with
+      | none => .bad
+      | some x =>
+        let e := rendererZigzagEncode x
+        let m := s!"{r32 e} {r64 (rendererZigzagDecode e)}"
+        let inDom := (x.setWidth 32).signExtend 64 == x
+        let pred := if inDom then (match ans with | [_, d] => some (d == r64 x) | _ => some false) else none
+        judge impl m pred "zigzag32"
+    | ["zd32", vs] =>
+      match nat? vs with
+      | none => .bad
+      | some n =>
+        let v := BitVec.ofNat 32 n
+        let d := rendererZigzagDecode v
+        let m := s!"{r64 d} {r32 (rendererZigzagEncode d)}"
+        let pred := match ans with | [_, e] => some (e == r32 v) | _ => some false
+        judge impl m pred "zigzag32-onto"
+    | ["tns", ts, nss] =>
+      match u64? ts, nat? nss with
+      | some t, some n =>
+        let ns := BitVec.ofNat 16 n
+        let c := combineTypeNs t ns
+        let (t', ns') := splitTypeNs c
+        let m := s!"{r16 c} {r64 t'} {r16 ns'}"
+        let inDom := decide (t < 8#64) && decide (ns < 8192#16)
+        let pred := if inDom then (match ans with | [_, a, b] => some (a == r64 t && b == r16 ns) | _ => some false) else none
+        judge impl m pred "type_ns"
+      | _, _ => .bad
+    | ["tnsd", cs] =>
+      match nat? cs with
+      | some n =>
+        let (t', ns') := splitTypeNs (BitVec.ofNat 16 n)
+        judge impl s!"{r64 t'} {r16 ns'}" none ""
+      | none => .bad
+    | ["vt", ts, vs] =>
+      match u64? ts, u64? vs with
+      | some t, some v =>
+        let m := match encodeValueType t v with
+          | none => "panic"
+          | some e => s!"{r64 e} {r64 (decodeValue e)} {r64 (decodeValueType e)}"
+        let inDom := decide (t < 4#64) && decide (v < 0x4000000000000000#64)
+        let pred := if inDom then (match ans with | [_, a, b] => some (a == r64 v && b == r64 t) | _ => some false) else none
+        judge impl m pred "value_type"
+      | _, _ => .bad
+    | ["geo", es, ls] =>
+      match nat? es, u64? ls with
+      | some en, some l =>
+        let e := BitVec.ofNat 8 en
+        let m := match encodeGeometry e l with
+          | none => "panic"
+          | some w => s!"{r64 w} {r64 (decodeGeometryLen w)} {r8 (decodeGeometryEncoding w)}"
+        let inDom := decide (en < 3) && decide (l < 0x4000000000000000#64)
+        let pred := if inDom then (match ans with | [_, a, b] => some (a == r64 l && b == r8 e) | _ => some false) else none
+        judge impl m pred "geometry_len"
+      | _, _ => .bad
+    | ["geod", vs] =>
+      match u64? vs with
+      | some w => judge impl s!"{r64 (decodeGeometryLen w)} {r8 (decodeGeometryEncoding w)}" none ""
+      | none => .bad
+    | ["hdr", bs, ts, ids, tags, lens] =>
+      match u64? bs, u64? ts, u64? ids, u64? tags, u64? lens with
+      | some b, some t, some id, some tag, some len =>
+        let w := headerPack id tag b t
+        let bytes := putUvarint w.toNat ++ putUvarint len.toNat
+        let bucket := bucketForID id b
+        let m := s!"{renderHex bytes} {r64 bucket} {r64 (headerUnpackID bucket w b t)} {r64 (headerUnpackTag w t)} {r64 len} {bytes.length}"
+        let inDom := layoutOK b t && decide (tag < (1#64 <<< t)) && decide (len < 0x8000000000000000#64)
+        let pred := if inDom then
+            (match ans with | [_, _, a, c, d, _] => some (a == r64 id && c == r64 tag && d == r64 len) | _ => some false)
+          else none
+        judge impl m pred "header_roundtrip"
+      | _, _, _, _, _ => .bad
+    | ["lay", bs, ts] =>
+      match u64? bs, u64? ts with
+      | some b, some t =>
+        let (b', t') := builderLayout b t
+        let pred := match ans with
+          | [a, c] => (match u64? a, u64? c with
+            | some ib, some it => some (layoutOK ib it && it == t)
+            | _, _ => some false)
+          | _ => some false
+        judge impl s!"{r64 b'} {r64 t'}" pred "builder_layouts_ok"
+      | _, _ => .bad
+    | ["blay", _, tys] =>
+      -- bucketBitsForCount is floating point (outside the model): predicate only
+      match nat? tys with
+      | some ty =>
+        match tagBitsOf ty, ans with
+        | some tb, [a, c] =>
+          (match u64? a, u64? c with
+            | some ib, some it => if layoutOK ib it && it.toNat == tb then .ok else .propfail "builder_layouts_ok"
+            | _, _ => .propfail "builder_layouts_ok")
+        | some _, _ => .propfail "builder_layouts_ok"
+        | none, _ => .bad
+      | none => .bad
+    | ["tile", xs, ys, zs] =>
+      match u64? xs, u64? ys, u64? zs with
+      | some x, some y, some z =>
+        let id := tileIDFromXYZ x y z
+        let (x', y', z') := tileIDToXYZ id
+        let m := s!"{r64 id} {r64 x'} {r64 y'} {r64 z'}"
+        let inDom := decide (z ≤ 29#64) && decide (x < 1#64 <<< z) && decide (y < 1#64 <<< z)
+        let pred := if inDom then
+            (match ans with | [_, a, b, c] => some (a == r64 x && b == r64 y && c == r64 z) | _ => some false)
+          else none
+        judge impl m pred "tile_id"
+      | _, _, _ => .bad
+    | ["tiled", ids] =>
+      match u64? ids with
+      | some id =>
+        let (x', y', z') := tileIDToXYZ id
+        judge impl s!"{r64 x'} {r64 y'} {r64 z'}" none ""
+      | none => .bad
+    | ["ll", las, los] =>
+      match nat? las, nat? los with
+      | some la, some lo =>
+        if la < 2 ^ 32 && lo < 2 ^ 32 then
+          let lat := BitVec.ofNat 32 la
+          let lng := BitVec.ofNat 32 lo
+          let id := newLatLngID lat lng
+          let (lat', lng') := latLngFromID id
+          let m := s!"{r64 id} {r32 lat'} {r32 lng'}"
+          let pred := match ans with | [_, a, b] => some (a == r32 lat && b == r32 lng) | _ => some false
+          judge impl m pred "latlng_id"
+        else .bad
+      | _, _ => .bad
+    | ["pc", hs] =>
+      match (parseHex hs).bind asciiChars with
+      | none => .bad
+      | some s =>
+        let p := normalizePostcode s
+        let m := match pointIDFromGBPostcode s with
+          | none => "invalid"
+          | some id => match postcodeFromPointID id with
+            | none => s!"{id} none"
+            | some back => s!"{id} {hexOfChars back}"
+        let inDom := decide (5 ≤ p.length) && decide (p.length ≤ 7) && p.all fun c => (postcodeCharValue c).isSome
+        let pred := if inDom then (match ans with | [_, back] => some (back == hexOfChars p) | _ => some false) else none
+        judge impl m pred "postcode_roundtrip"
+    | ["pcd", vs] =>
+      match u64? vs with
+      | some v =>
+        let m := match postcodeFromPointID v.toNat with | none => "none" | some back => hexOfChars back
+        judge impl m none ""
+      | none => .bad
+    | ["ons", hs, ys] =>
+      match (parseHex hs).bind asciiChars, int? ys with
+      | some code, some year =>
+        let m := match featureIDFromUKONSCode code year with
+          | none => "invalid"
+          | some v => let (back, y) := ukONSCodeFromFeatureID v; s!"{r64 v} {hexOfChars back} {y}"
+        let inDom := match code with
+          | _ :: ds => decide (ds.length = 8) && (ds.all fun c => (digitValue c).isSome) && decide (1900 ≤ year) && decide (year ≤ 2155)
+          | [] => false
+        let pred := if inDom then
+            (match ans with | [_, back, y] => some (back == hexOfChars code && y == toString year) | _ => some false)
+          else none
+        judge impl m pred "ons_roundtrip"
+      | _, _ => .bad
+    | ["onsd", vs] =>
+      match u64? vs with
+      | some v => let (back, y) := ukONSCodeFromFeatureID v; judge impl s!"{hexOfChars back} {y}" none ""
+      | none => .bad
+    | _ => .bad
+  ((), v)
+
+def family : Family := { σ := Unit, init := (), step := step }
+
+end B6.Driver.C10
+
+def main : IO Unit := B6.Driver.run B6.Driver.C10.family
